@@ -237,17 +237,25 @@ End Eval.
 (* ---------- input streams ---------- *)
 (* One record, two flavours.  sticky=false: the in-memory stream (state reflects the last read
    only; relative seek clamped at the declared end).  sticky=true: std::fstream (failbit sticks). *)
+(* s_open (fstream flavour only): None = the file stays open; Some k = ANOTHER thread (File::close) closes the file after k more
+   effective operations of this thread on it.  On a closed std::fstream a read delivers nothing and sets eofbit|failbit, a seek
+   sets failbit only. *)
 Record istream := { s_before : list Z; s_after : list Z; s_cur : Z (* = length of s_before *);
-                    s_pos : Z; s_size : Z; s_good : bool; s_eof : bool; s_sticky : bool }.
+                    s_pos : Z; s_size : Z; s_good : bool; s_eof : bool; s_sticky : bool; s_open : option nat }.
+Definition tick (o : option nat) : option nat := match o with Some (S k) => Some k | _ => o end.
 
 Definition s_data (s : istream) : list Z := rev_append (s_before s) (s_after s).
 
 Definition mk_ustream (b : list Z) : istream :=
   {| s_before := []; s_after := b; s_cur := 0; s_pos := 0; s_size := zlen b;
-     s_good := true; s_eof := false; s_sticky := false |}.
+     s_good := true; s_eof := false; s_sticky := false; s_open := None |}.
 Definition mk_fstream (b : list Z) : istream :=
   {| s_before := []; s_after := b; s_cur := 0; s_pos := 0; s_size := zlen b;
-     s_good := true; s_eof := false; s_sticky := true |}.
+     s_good := true; s_eof := false; s_sticky := true; s_open := None |}.
+Definition mk_fstream_closing (b : list Z) (k : nat) : istream :=
+  {| s_before := []; s_after := b; s_cur := 0; s_pos := 0; s_size := zlen b;
+     s_good := true; s_eof := false; s_sticky := true; s_open := Some k |}.
+Definition closed_now (s : istream) : bool := match s_open s with Some O => true | _ => false end.
 
 (* move up to n elements from the front of a onto b (reversed); also returns how many moved *)
 Fixpoint zip_fwd (n : nat) (b a : list Z) (moved : Z) : list Z * list Z * Z :=
@@ -273,13 +281,16 @@ Definition s_read (n : Z) (s : istream) : list Z * istream :=
   if s_sticky s then
     if negb (s_good s) then ([], s)
     else if n <=? 0 then ([], s)
+    else if closed_now s then
+      ([], {| s_before := s_before s; s_after := s_after s; s_cur := s_cur s; s_pos := s_pos s; s_size := s_size s;
+              s_good := false; s_eof := true; s_sticky := true; s_open := s_open s |})
     else
       let avail := Z.max 0 (s_size s - s_pos s) in
       let short := avail <? n in
       let n' := if short then avail else n in
       let '(got, (b, a)) := zip_take (Z.to_nat n') (s_before s) (s_after s) in
       (got, {| s_before := b; s_after := a; s_cur := s_cur s + zlen got; s_pos := s_pos s + n'; s_size := s_size s;
-               s_good := negb short; s_eof := short; s_sticky := true |})
+               s_good := negb short; s_eof := short; s_sticky := true; s_open := tick (s_open s) |})
   else
     let short := s_size s <? n + s_pos s in
     let n' := if short then s_size s - s_pos s else n in
@@ -288,23 +299,31 @@ Definition s_read (n : Z) (s : istream) : list Z * istream :=
     (* the state reflects this read; a zero-length read inside the stream leaves it as it was *)
     let keep := negb short && (n <=? 0) in
     (got, {| s_before := b; s_after := a; s_cur := s_cur s + zlen got; s_pos := s_pos s + zlen got; s_size := s_size s;
-             s_good := if keep then s_good s else negb short; s_eof := if keep then s_eof s else short; s_sticky := false |}).
+             s_good := if keep then s_good s else negb short; s_eof := if keep then s_eof s else short; s_sticky := false;
+             s_open := s_open s |}).
 
+(* std::fstream: a seek on a closed file, or to a negative position, fails (failbit only) and leaves the position *)
 Definition s_seek (off : Z) (s : istream) : istream :=
   if s_sticky s then
     if s_good s then
+      if closed_now s || (s_pos s + off <? 0) then
+        {| s_before := s_before s; s_after := s_after s; s_cur := s_cur s; s_pos := s_pos s; s_size := s_size s;
+           s_good := false; s_eof := s_eof s; s_sticky := true; s_open := tick (s_open s) |}
+      else
       let '(b, a, c) := zip_move (s_before s) (s_after s) (s_cur s) (s_pos s + off) in
       {| s_before := b; s_after := a; s_cur := c; s_pos := s_pos s + off; s_size := s_size s;
-         s_good := true; s_eof := false; s_sticky := true |}
+         s_good := true; s_eof := false; s_sticky := true; s_open := tick (s_open s) |}
     else s
   else
     let p1 := Z.min (s_pos s + off) (s_size s) in
     let '(b, a, c) := zip_move (s_before s) (s_after s) (s_cur s) p1 in
     {| s_before := b; s_after := a; s_cur := c; s_pos := p1; s_size := s_size s;
-       s_good := s_good s; s_eof := s_eof s; s_sticky := false |}.
+       s_good := s_good s; s_eof := s_eof s; s_sticky := false; s_open := s_open s |}.
 
 (* ---------- the signature scan of ObjectHeaderBase::read ---------- *)
-Record scan_params := { sp_sig : Z; sp_rules : list (Z * Z * Z) (* mask, value, seek *); sp_field : Z }.
+(* sp_stop_on_fail: what ends the search after a mismatch — true: any failed stream (!is.good()); false: end of file only (is.eof()) *)
+Record scan_params := { sp_sig : Z; sp_rules : list (Z * Z * Z) (* mask, value, seek *); sp_field : Z; sp_stop_on_fail : bool }.
+Definition scan_stop (sp : scan_params) (s : istream) : bool := if sp_stop_on_fail sp then negb (s_good s) else s_eof s.
 
 Definition scan_rule (rules : list (Z * Z * Z)) (tmp : Z) : Z :=
   (fix go (r : list (Z * Z * Z)) := match r with
@@ -316,11 +335,11 @@ Definition merge_scalar (w : Z) (old : Z) (got : list Z) : Z :=
   le_dec (got ++ zdrop (zlen got) (le_enc w old)).
 
 Fixpoint scan_loop (sp : scan_params) (n : nat) (tmp : Z) (s : istream) : res (Z * istream) :=
-  match n with O => Err EFuel | S n' =>
+  match n with O => Err ESpin | S n' =>
     let '(got, s1) := s_read 4 s in
     let tmp' := merge_scalar 4 tmp got in
     if tmp' =? sp_sig sp then Ok (tmp', s1)
-    else if s_eof s1 then Err EThrow
+    else if scan_stop sp s1 then Err EThrow
     else scan_loop sp n' tmp' (let k := scan_rule (sp_rules sp) tmp' in if k =? 0 then s1 else s_seek k s1)
   end.
 
